@@ -16,7 +16,7 @@ theorem landed_cons {bs pad : List Nat} {g : Frame} {rest' : List Frame} {e : Na
   subst h1
   exact ⟨c', rfl, h2⟩
 
-theorem value_step {W : Nat} {bs pad : List Nat} (ctx : Ctx W bs pad) (hnum : NumberCorrectOn bs) (fuel : Nat)
+theorem value_step {W : Nat} {bs pad : List Nat} (ctx : Ctx W bs pad) (hnum : NumberOK bs) (fuel : Nat)
     (ihE : ElemsSim W bs pad fuel) (ihM : MembersSim W bs pad fuel) : ValueSim W bs pad (fuel + 1) := by
   intro s f rest p c hat hfuel
   rcases hat.tok_bs with ⟨hp, hbp⟩ | ⟨hpL, hcx, hbn⟩
@@ -58,7 +58,7 @@ theorem value_step {W : Nat} {bs pad : List Nat} (ctx : Ctx W bs pad) (hnum : Nu
             refine Or.inl ⟨k, cfg.1, node, c', ⟨_, by rw [hvs, hop], by rw [← hcfg]; exact hreach⟩, hat', ?_,
               hpres.trans hpres2, by omega, he⟩
             simpa using hgood
-          · refine Or.inr ⟨ErrT.ofR (by rw [hvs, hop]) hErr (by omega), fun hcv => hncap ?_⟩
+          · refine Or.inr (Or.inl ⟨ErrT.ofR (by rw [hvs, hop]) hErr (by omega), fun hcv => hncap ?_⟩)
             unfold CapV at hcv
             unfold CapE
             omega
@@ -91,7 +91,7 @@ theorem value_step {W : Nat} {bs pad : List Nat} (ctx : Ctx W bs pad) (hnum : Nu
             refine Or.inl ⟨k, cfg.1, node, c', ⟨_, by rw [hvs, hop], by rw [← hcfg]; exact hreach⟩, hat', ?_,
               hpres.trans hpres2, by omega, he⟩
             simpa using hgood
-          · refine Or.inr ⟨ErrT.ofR (by rw [hvs, hop]) hErr (by omega), fun hcv => hncap ?_⟩
+          · refine Or.inr (Or.inl ⟨ErrT.ofR (by rw [hvs, hop]) hErr (by omega), fun hcv => hncap ?_⟩)
             unfold CapV at hcv
             unfold CapE
             omega
@@ -125,7 +125,7 @@ theorem contOf_arr {f : Frame} (hf : f.isArr = true) : contOf f = Label.arrCont 
 theorem contOf_obj {f : Frame} (hf : f.isArr = false) : contOf f = Label.objCont := by
   unfold contOf; rw [hf]; rfl
 
-theorem elems_step {W : Nat} {bs pad : List Nat} (ctx : Ctx W bs pad) (hnum : NumberCorrectOn bs) (fuel : Nat)
+theorem elems_step {W : Nat} {bs pad : List Nat} (ctx : Ctx W bs pad) (hnum : NumberOK bs) (fuel : Nat)
     (ihV : ValueSim W bs pad fuel) (ihE : ElemsSim W bs pad fuel) : ElemsSim W bs pad (fuel + 1) := by
   intro s f rest p c dvals hf hat hgood hfuel
   rw [Json.parseElems]
@@ -141,7 +141,8 @@ theorem elems_step {W : Nat} {bs pad : List Nat} (ctx : Ctx W bs pad) (hnum : Nu
     simp only
     have hvp := (spec_progress hnum fuel p).1 v next hv
     have hq := skipWs_ge bs (pos := next) hvp.2
-    rcases hV with ⟨k, s', node, c', ⟨cfg0, hcfg0, hreach⟩, hat', hgood', hpres, hk, hnl⟩ | ⟨hErr, hncap⟩
+    rcases hV with ⟨k, s', node, c', ⟨cfg0, hcfg0, hreach⟩, hat', hgood', hpres, hk, hnl⟩ | ⟨hErr, hncap⟩ |
+        ⟨hErr, hdoom⟩
     · -- the element has been pushed; `c'` is the token after it
       have hreach1 : Reaches W (k + 1) (s, some (.arrVal c)) (s', some (.arrCont c')) := by
         have := Reaches.step (by rw [hstep, hcfg0]) hreach
@@ -206,5 +207,11 @@ theorem elems_step {W : Nat} {bs pad : List Nat} (ctx : Ctx W bs pad) (hnum : Nu
             omega
         · rw [if_neg hb2]
           exact hE
+    · -- a doomed number: its next byte is neither `]` nor `,`
+      obtain ⟨d, hdd, hsp, hd1, hd2, _⟩ := hdoom.notWs
+      rw [skipWs_fix hdd hsp, hdd]
+      rw [if_neg (by simp only [beq_iff_eq, Option.some.injEq]; exact hd2),
+        if_neg (by simp only [beq_iff_eq, Option.some.injEq]; exact hd1)]
+      exact ErrT.step hstep hErr
 
 end Sonic.Proofs.Parse
